@@ -297,7 +297,7 @@ def _tv(ctx, pkg):
     sup = pkg == SUP
     biz, gate = (["K1", "K2"], []) if sup else (["K1", "K2"], ["G1", "P1"])
     # group A: the kind of a live name never changes; group B: arbitrary histories
-    groups = [("same-kind", 0, (12, 20) if ctx.quick else (100, 30)), ("kind-changes", 1, (4, 20) if ctx.quick else (24, 30))]
+    groups = [("same-kind", 0, (10, 20) if ctx.quick else (100, 30)), ("kind-changes", 1, (10, 20) if ctx.quick else (60, 30))]
     last_group = False
     for gname, kc, (n, steps) in groups:
         if last_group:
